@@ -89,6 +89,38 @@ def check_sequence(name, m, k, points, as_numpy):
     return out
 
 
+def check_moved(name, m, k, mode):
+    """ONE Individual object walks through several box points (coordinates overwritten in place, or the vector re-bound) and
+    is evaluated at each stop - by its own problem and, for DTLZ2/3/4 which share the dimension m+9, by the sibling
+    problems too. Every result must be the objectives of the point the individual is at now (= what a fresh individual
+    at that point gets, and the identities)."""
+    from artap.individual import Individual
+    pts = seq_points(name, m, k)
+    sibs = [name] if name not in ("DTLZ2", "DTLZ3", "DTLZ4") else [name] + [s for s in ("DTLZ2", "DTLZ3", "DTLZ4") if s != name]
+    ind = Individual(list(pts[0]))
+    out = []
+    for step, x in enumerate(pts + pts[:2]):
+        if mode == "inplace":
+            for j, v in enumerate(x):
+                ind.vector[j] = v
+        else:
+            ind.vector = list(x)
+        for sname in sibs:
+            try:
+                got = [float(v) for v in problem_for(sname, m, k).evaluate(ind)]
+                fresh = [float(v) for v in problem_for(sname, m, k).evaluate(Individual(list(x)))]
+            except Exception as e:
+                return [("C16:%s:moved-individual:exception:%s" % (sname, type(e).__name__), "%s at %r raised %r" % (sname, x, e))]
+            if got != fresh:
+                return [("C16:%s:moved-individual:objectives-of-an-earlier-point" % sname,
+                         "%s m=%d: one Individual object moved (%s) to its stop no. %d %r and evaluated (history: problems %r at every stop) gives %r, a fresh individual at that point %r"
+                         % (sname, m, mode, step + 1, x, sibs, got, fresh))]
+            out += [(key + ":moved-individual", msg) for key, msg in check_values(sname, m, k, tuple(x), got)]
+            if out:
+                return out
+    return out
+
+
 _cache = {}
 
 
@@ -220,6 +252,15 @@ def _shard(shard, col: Collector):
                 col.violation(key, "viajob", msg, {"name": name, "m": m, "k": k, "step": step})
         col.sample({"kind": "near-identical designs evaluated through Algorithm.evaluate", "problem": name}, 1)
         return
+    if shard[0] == "moved":
+        _, name, m, k = shard
+        for mode in ("inplace", "rebind"):
+            col.case()
+            col.nontrivial(("moved", name, m, k, mode))
+            for key, msg in check_moved(name, m, k, mode):
+                col.violation(key, "moved", msg, {"name": name, "m": m, "k": k, "mode": mode})
+        col.sample({"kind": "one Individual object moved through seven points and evaluated at each (sibling problems in between)", "problem": name, "m": m}, 1)
+        return
     if shard[0] == "seq":
         _, name, m, k = shard
         for as_numpy in (False, True, "ndarray", "keep"):
@@ -270,6 +311,8 @@ def _shard(shard, col: Collector):
 def replay(sub, case):
     if sub == "viajob":
         return check_via_job(case["name"], case["m"], case["k"], case["step"])
+    if sub == "moved":
+        return check_moved(case["name"], case["m"], case["k"], case["mode"])
     if sub == "seq":
         return check_sequence(case["name"], case["m"], case["k"], seq_points(case["name"], case["m"], case["k"]), case["numpy"])
     return check_point(case["name"], case["m"], case["k"], tuple(case["x"]), case.get("numpy", False))
@@ -293,6 +336,9 @@ def run(tier, seed):
     for m in ms:
         shards += [("seq", "DTLZ1", m, 3), ("seq", "DTLZ2", m, 10), ("seq", "DTLZ3", m, 10), ("seq", "DTLZ4", m, 10)]
     shards += [("seq", "ZDT1", 2, 29), ("seq", "BI", 2, 0)]
+    for m in ms:
+        shards += [("moved", "DTLZ1", m, 3), ("moved", "DTLZ2", m, 10), ("moved", "DTLZ3", m, 10), ("moved", "DTLZ4", m, 10)]
+    shards += [("moved", "ZDT1", 2, 29), ("moved", "BI", 2, 0)]
     # far more distance variables / objectives than the lattice reaches (sizes at which fast paths would switch on)
     for k in (31, 32, 33, 64, 65, 100, 127, 128, 129, 200, 256, 257, 1000):
         for m in (2, 3):
@@ -312,3 +358,4 @@ def run(tier, seed):
 RULE += (' Evaluation sequences also with a caller that only keeps the returned lists (no modification), so a shared result buffer is visible.')
 
 RULE += (' Beyond small: DTLZ1 with 31..1000 distance variables, all four families with m in {8, 10, 16, 17, 33}; designs 1e-2..1e-12 apart evaluated through Algorithm.evaluate.')
+RULE += (' One Individual object moved through seven points (coordinates overwritten in place / vector re-bound) and evaluated at every stop, DTLZ2/3/4 evaluating the same object in turn: results must be those of a fresh individual at the current point.')
